@@ -95,7 +95,7 @@ def cases(shard):
                 yield {"alg": "dj", "n": n, "table": tb, "form": f, "key": "dj n=%d table=%s form=%s" % (n, bin(tb), f)}
     elif alg == "bv":
         for s in range(shard["lo"], shard["hi"]):
-            forms = ["secret_oracle", "dot"] if n > 1 else ["dot"]
+            forms = ["secret_oracle", "dot", "dot_neg"] if n > 1 else ["dot", "dot_neg"]
             if n == 4:
                 forms.append("dot_nested")
             for f in forms:
@@ -191,11 +191,14 @@ def run_case(case):
             else:
                 terms = [bit("x", i, n, "int") for i in range(n) if (s >> i) & 1]
                 body = " ^ ".join(terms) if terms else "False"
+                if case["form"] == "dot_neg":
+                    # f(x) = s.x xor 1: the constant only contributes a global phase, the register still reads s
+                    body = "not (%s)" % body
                 src = "def tfun(x: %s) -> bool:\n    return %s\n" % (argtype(n, "int"), body)
                 qf = H.compile_src(src, "default", True)
             col = 0
             for r in range(N):
-                if bin(r & s).count("1") & 1:
+                if (bin(r & s).count("1") & 1) ^ (1 if case["form"] == "dot_neg" else 0):
                     col |= 1 << r
             if not denotes(qf, [col]):
                 return NOT_DENOTED(src)
